@@ -354,6 +354,70 @@ def run_convert(ctx, rng, idx):
         ctx.violation("result-aliases-argument:convert", f"a container built by the converter is the source's own object: {built1[next(iter(alias))]}", desc)
 
 
+def run_convert_widening(ctx, rng):
+    """Container fields whose types DIFFER but whose elements are coercible as is (list[int] -> list[Optional[int]], set[bool] -> set[int],
+    list[Child] -> list[Parent], list[int] -> list[Any]): only EQUAL types are documented to be passed as is, so the converter builds the
+    destination container - anew for each call and never the source's own object (seeded change: as-is shortcut in the iterable coercer)."""
+    import typing as t  # noqa: PLC0415
+    from dataclasses import make_dataclass  # noqa: PLC0415
+
+    from adaptix.conversion import get_converter  # noqa: PLC0415
+
+    Parent = make_dataclass("Parent", [("x", int)])
+    Child = make_dataclass("Child", [("y", int, 0)], bases=(Parent,))
+    pairs = [
+        (t.List[int], t.List[t.Optional[int]], lambda: [1, 2, 3]), (t.List[bool], t.List[int], lambda: [True, False]), (t.Set[bool], t.Set[int], lambda: {True}),
+        (t.List[int], t.List[t.Any], lambda: [1, 2]), (t.Dict[str, int], t.Dict[str, t.Optional[int]], lambda: {"a": 1}), (t.List[Child], t.List[Parent], lambda: [Child(1, 2)]),
+        (t.List[t.List[int]], t.List[t.List[t.Optional[int]]], lambda: [[1], [2]]), (t.Deque[int], t.Deque[t.Optional[int]], lambda: collections.deque([1])),
+        (t.Dict[str, t.List[bool]], t.Dict[str, t.List[int]], lambda: {"k": [True]}), (t.FrozenSet[bool], t.Set[int], lambda: frozenset({True})),
+        (t.Optional[t.List[int]], t.Optional[t.List[t.Optional[int]]], lambda: [1]),
+    ]
+    st, dt_, mk = rng.choice(pairs)
+    S = make_dataclass("S", [("name", str), ("values", st)])
+    D = make_dataclass("D", [("name", str), ("values", dt_)])
+    made = attempt(get_converter, S, D)
+    if made.kind != "ok":
+        ctx.count("widening_pair_refused")
+        return
+    arg = S("a", mk())
+    before = freeze(arg)
+    r1, r2 = attempt(made.value, arg), attempt(made.value, arg)
+    ctx.evaluated(("convert-widening", repr(st), repr(dt_)), nontrivial=True)
+    ctx.count("convert_call_pairs")
+    ctx.count("widening_conversions")
+    desc = {"type": f"{st!r} -> {dt_!r}"}
+    if r1.kind != "ok" or r2.kind != "ok":
+        return
+    if freeze(arg) != before:
+        ctx.violation("argument-mutated:convert", f"converter changed its source object: {arg!r:.200}", desc)
+        return
+    src_ids = mutable_ids(arg.values)
+    ids1, ids2 = mutable_ids(r1.value.values), mutable_ids(r2.value.values)
+    # containers (lists / sets / dicts / deques) only: the elements themselves (Child instances) are passed as is
+    def containers(ids):
+        return {i for i, path in ids.items()} if isinstance(ids, dict) else set(ids)
+    c_src = {id(o) for o in _containers_of(arg.values)}
+    c1, c2 = {id(o) for o in _containers_of(r1.value.values)}, {id(o) for o in _containers_of(r2.value.values)}
+    if c1 & c_src or c2 & c_src:
+        ctx.violation("result-aliases-argument:convert", f"{desc['type']}: the destination container IS the source's own container", desc)
+    elif c1 & c2:
+        ctx.violation("results-share-container:convert", f"{desc['type']}: two conversion results share a container", desc)
+
+
+def _containers_of(x, depth=0):
+    out = []
+    if isinstance(x, (list, set, dict, collections.deque)):
+        out.append(x)
+    if depth < 4:
+        if isinstance(x, dict):
+            for v in x.values():
+                out += _containers_of(v, depth + 1)
+        elif isinstance(x, (list, tuple, set, frozenset, collections.deque)):
+            for v in x:
+                out += _containers_of(v, depth + 1)
+    return out
+
+
 def _built(pair, obj, path=()):
     """id -> path of the objects adaptix itself must have built for this conversion plan (models, coerced lists/dicts)."""
     out = {id(obj): path}
@@ -389,7 +453,9 @@ def run_case(ctx, rng, idx):
     for _ in range(2):
         run_layout(ctx, rng, idx)
     run_convert(ctx, rng, idx)
+    run_convert_widening(ctx, rng)
     run_extra_targets(ctx, rng)
+    run_configured_dumpers(ctx, rng)
     if idx < 1:
         ctx.sample({"legs": ["grammar types x input container variants", "name_mapping layouts with extras", "converters"], "oracles": ["argument snapshot", "repeat equality", "id-graph disjointness", "mutation of result 1"]})
 
@@ -441,6 +507,54 @@ def run_extra_targets(ctx, rng):  # noqa: C901
         holders += [(obj[t] if kind != "dataclass" else getattr(obj, t)) for t in targets]
         if any(d1.value is h or d2.value is h for h in holders) or d1.value is d2.value:
             ctx.violation("results-share-container:dump:extra_out-targets", f"the dumped mapping IS one of the argument's mappings (or the previous result): extra_out={targets}", desc)
+
+
+def run_configured_dumpers(ctx, rng):
+    """Builtin providers switched on through the recipe (flag_by_member_names, enum_by_name, default_dict, datetime providers ...): what they
+    build (the list of member names, dicts) is built anew by each call, also for EQUAL values dumped twice and for two equal values in one
+    document (seeded change: a memoised result list in the flag-by-names dumper)."""
+    import typing as t  # noqa: PLC0415
+
+    from adaptix import Retort, default_dict, flag_by_member_names  # noqa: PLC0415
+
+    cfgs = [
+        ("flag_by_member_names", spec.FRWX, [flag_by_member_names(spec.FRWX)], lambda: spec.FRWX.R | spec.FRWX.W, lambda: ["R", "W"]),
+        ("flag_by_member_names(compound)", spec.FZ, [flag_by_member_names(spec.FZ, allow_compound=True)], lambda: spec.FZ.AB, lambda: ["AB"]),
+        ("default_dict", t.DefaultDict[str, t.List[int]], [default_dict(t.DefaultDict[str, t.List[int]], default_factory=list)],
+         lambda: collections.defaultdict(list, {"a": [1]}), lambda: {"a": [1]}),
+    ]
+    name, tp, recipe, mk_val, mk_outer = rng.choice(cfgs)
+    hint, wrap = rng.choice([(tp, lambda v: v), (t.List[tp], lambda v: [v, v]), (t.Dict[str, tp], lambda v: {"a": v, "b": v})])
+    r = Retort(recipe=recipe)
+    for side in ("dump", "load"):
+        arg = wrap(mk_val() if side == "dump" else mk_outer())
+        fn = r.dump if side == "dump" else r.load
+        before = freeze(arg)
+        o1, o2 = attempt(fn, arg, hint), attempt(fn, arg, hint)
+        ctx.evaluated(("configured", name, side, repr(hint)[:40]), nontrivial=True)
+        ctx.count(f"{side}_call_pairs")
+        ctx.count("configured_provider_calls")
+        desc = {"provider": name, "type": repr(hint), "side": side}
+        if o1.kind != "ok" or o2.kind != "ok":
+            continue
+        if freeze(arg) != before:
+            ctx.violation(f"argument-mutated:{side}:configured", f"{name}: {side} changed its argument", desc)
+            continue
+        c1, c2 = [id(o) for o in _containers_of(o1.value)], [id(o) for o in _containers_of(o2.value)]
+        if set(c1) & set(c2):
+            ctx.violation(f"results-share-container:{side}:configured", f"{name}: two {side}s of equal values returned the same container object", desc)
+        elif len(set(c1)) != len(c1):
+            ctx.violation(f"results-share-container:{side}:configured-within-one-result", f"{name}: equal values inside one document were {side}ed to ONE container object", desc)
+        else:
+            # editing result 1 must not show in a third call
+            for o in _containers_of(o1.value):
+                if isinstance(o, list):
+                    o.append("edited")
+                elif isinstance(o, dict):
+                    o["edited"] = 1
+            o3 = attempt(fn, arg, hint)
+            if o3.kind != "ok" or not strict_eq(o3.value, o2.value):
+                ctx.violation(f"result-mutation-visible-later:{side}:configured", f"{name}: after editing the first result the same call gives {o3!r:.150}, before {o2!r:.150}", desc)
 
 
 def _witness_defaultdict(ctx):
